@@ -87,7 +87,7 @@ def cases(tier, seed):
     for i in range(n_extra):
         sub = ["advi", "map", "mcmc", "hmc"][i % 4]
         clock = str(rng.choice(["none", "strict", "strict", "ucln"]))
-        c = {"sub": sub, "model": str(rng.choice(["JC69", "HKY", "GTR"])), "C": int(rng.choice([1, 4])), "I": bool(rng.random() < 0.3), "clock": clock,
+        c = {"sub": sub, "model": str(rng.choice(["JC69", "HKY", "GTR", "JC69", "HKY", "GTR", "SRD06", "K80", "SYM"])), "C": int(rng.choice([1, 4])), "I": bool(rng.random() < 0.3), "clock": clock,
              "heights": None if clock == "none" else str(rng.choice(["ratio", "shift"])), "prior": "none" if clock == "none" else str(rng.choice(["constant", "skygrid", "skyride", "exponential", "bdsk", "skyglide"]))}
         e = {}
         pick = lambda p: rng.random() < p
